@@ -413,8 +413,18 @@ def derived_seed(op, seed, part=None):
     return int.from_bytes(h[:8], "big") >> 1
 
 
+GEN_TIMEOUT = float(os.environ.get("VERIF_GEN_TIMEOUT", "900"))
+
+
 def generate(op, seed, count, part=None):
-    p = subprocess.run([HARNESS_EXE, "gen", op, str(derived_seed(op, seed, part)), str(count)], stdout=subprocess.PIPE, text=True)
+    # some generators pre-flight their cases with the code under test (component tables, tame cases): a
+    # change of /repo that makes that code spin would hang `gen`, which has no per-case watchdog
+    try:
+        p = subprocess.run([HARNESS_EXE, "gen", op, str(derived_seed(op, seed, part)), str(count)], stdout=subprocess.PIPE,
+                           text=True, timeout=GEN_TIMEOUT)
+    except subprocess.TimeoutExpired:
+        raise Broken(f"harness: `gen {op}` does not return within {GEN_TIMEOUT:.0f} s (its generator runs the code under test, "
+                     "which hangs)")
     if p.returncode != 0:
         raise Broken(f"harness gen {op} failed")
     lines = p.stdout.split("\n")
